@@ -51,10 +51,17 @@ ElementCells(ops, thetas, lins, thetas2, lins2, jac) ==
   { Cell(op, key, thetas[i], lins[j], Hemis[h], Cyc(Dirs, i + j), Cyc(thetas2, i + 2 * j + h), Cyc(lins2, i + j + h), jac) :
       op \in ops, key \in Range(GroupsQ), i \in 1..Len(thetas), j \in 1..Len(lins), h \in 1..2 }
 
+\* thorough tier: log-dense sweep of the rotation magnitude over [1e-9, pi] (400 draws = 42 per decade) for the
+\* one-operand functions, at three linear magnitudes, double precision
+Sweep(ops, jac) ==
+  IF Tier # "thorough" THEN {}
+  ELSE { [op |-> op, key |-> GroupsD[k], prop |-> Prop, thc |-> "sweep", linc |-> lc, hemi |-> "any", dir |-> "generic",
+          thc2 |-> "generic", linc2 |-> "1", jac |-> jac, reps |-> 400] : op \in ops, k \in 1..Len(GroupsD), lc \in {"1", "1e3", "1e6"} }
+
 PlanOf(p) ==
   CASE p = "C01" -> ElementCells({"compose", "inverse", "act", "transform"}, ThetaElem, LinAll, ThetaElem, LinAll, 0)
                     \cup { Cell("identity", key, "-", "-", "-", "-", "-", "-", 0) : key \in Range(GroupsQ) }
-    [] p = "C02" -> TangentCells({"exp"}, ThetaAll, LinAll, 0)
+    [] p = "C02" -> TangentCells({"exp"}, ThetaAll, LinAll, 0) \cup Sweep({"exp"}, 0)
     [] p = "C03" -> ElementCells({"log", "logtwin"}, ThetaElem, LinAll, <<"generic">>, <<"1">>, 0)
                     \cup TangentCells({"explog"}, ThetaAll, LinAll, 0)
                     \cup { Cell("logchain", key, "-", LinAll[j], "any", Dirs[d], "-", "-", 0) :
@@ -65,7 +72,7 @@ PlanOf(p) ==
                                  ThetaElem, LinJ, ThetaIn, LinJ, 1)
                     \cup TangentCells({"exp"}, ThetaIn, LinJ, 1)
                     \cup TangentCells({"tplus"}, <<"generic">>, <<"1", "1e6">>, 1)
-    [] p = "C06" -> TangentCells({"jacs", "adjexp"}, ThetaIn, LinJ, 0)
+    [] p = "C06" -> TangentCells({"jacs", "adjexp"}, ThetaIn, LinJ, 0) \cup Sweep({"jacs"}, 0)
                     \cup ElementCells({"adj"}, ThetaElem, LinAll, <<"generic">>, <<"1">>, 0)
     [] p = "C15" -> { Cell("interp", key, ThetaElem[i], Cyc(<<"zero", "1", "1e3">>, i + j), meth, pk, Cyc(<<"generic", "mid_hi", "generic">>, i + j), "1", v) :
                         key \in Range(GroupsQ), i \in {1, 3, 8, 9}, j \in 1..2, v \in {0, 1},
